@@ -18,15 +18,20 @@ Tie, three independent legs (all on the REAL code from /repo):
      Model/PgLex.lean (my transcription of the PostgreSQL documentation, trusted)
      executed by the Lean driver on the real outputs.
 
-One known-false region is left on the current tree (`quote_e_literal` does not
-escape backslashes; dead code): it is reported with ONE stable key
-(`pg-eliteral-backslash:quote_e_literal`) and the minimal witness in the detail.
+Two known-false regions are left on the current tree, each reported with ONE
+stable key and the minimal witness in the detail:
+`pg-eliteral-backslash:quote_e_literal` (`quote_e_literal` does not escape
+backslashes; dead code) and `pg-name-byte-length:edgedb_name_to_pg_name` (the
+length guard counts characters, PostgreSQL truncates at 63 bytes; the detail
+carries a colliding pair).
 Every other oracle failure is a violation keyed by the function and the input —
 in particular a reappearance of the defects repaired by 269eaeb / 6e967b8 /
 1c83ec0 / 878e057 (see notes/C18.known_findings.json).
 """
 from __future__ import annotations
 
+import base64
+import hashlib
 import importlib.util
 import itertools
 import json
@@ -45,6 +50,8 @@ REQUIRED = [
     'EdbVerif.C18.edgeql_const_single', 'EdbVerif.C18.edgeql_bytes_single',
     'EdbVerif.C18.pg_literal', 'EdbVerif.C18.pg_ident', 'EdbVerif.C18.pg_bytea',
     'EdbVerif.C18.pg_eliteral_partial', 'EdbVerif.C18.pg_eliteral_counterexample',
+    'EdbVerif.C18.edgeql_dollar_total', 'EdbVerif.C18.edgeql_const_total',
+    'EdbVerif.C18.pg_name_length', 'EdbVerif.C18.pg_name_partial', 'EdbVerif.C18.pg_name_counterexample',
 ]
 
 BIDI = set(range(0x202A, 0x202F)) | set(range(0x2066, 0x206A))
@@ -304,6 +311,7 @@ def run(ctx: core.Ctx):
     fam = Families()
     hist: dict[str, int] = {}
     viols: dict[str, list] = {}     # function -> [(len, input bytes, what, detail)]
+    clipped: dict[str, str] = {}    # PgLex reading of a too-long name -> first name read that way
 
     def viol(name, sb, what, detail):
         """an oracle failure on the real code: a violation keyed by function + input; at most
@@ -335,7 +343,7 @@ def run(ctx: core.Ctx):
         # witnesses of the `_counterexample` theorems, replayed on the real code
         for s in ['x$', '\'"$', '\n\x85', '\'"$$$a', '‮', '²a', '\\', '__x__', '@a', 'a::b', '',
                   '\n ', '\n­', "'\"$$", 'select', '__type__', '__TYPE__', 'a' * 64, 'é' * 32,
-                  "\n'‮", '$$', '\'"$$$a$b$c$d$e$f$a1', '\'"' + ''.join('$%s$' % c for c in 'abcdef') + '$$']:
+                  "\n'‮", '$$', '名' * 25 + '~1', '名' * 25 + '~2', 'a' * 51, 'a' * 52, '\'"$$$a$b$c$d$e$f$a1', '\'"' + ''.join('$%s$' % c for c in 'abcdef') + '$$']:
             add(s, 'witness')
         nmax = ctx.budget(3, 5)
         for n in range(0, nmax + 1):
@@ -386,6 +394,18 @@ def run(ctx: core.Ctx):
                 else:
                     cs.append(rng.choice(ASCII_PRINT))
             add(''.join(cs), 'random')
+        # long names for edgedb_name_to_pg_name (the 51-character / 63-byte border)
+        for _ in range(ctx.budget(1200, 20000)):
+            n = rng.choice([40, 49, 50, 51, 52, 53, 60, 62, 63, 64, 70, 90])
+            n = max(1, n + rng.randint(-3, 3))
+            kind = rng.random()
+            if kind < 0.5:
+                cs = [rng.choice('abcxyz_019ABZ~;-') for _ in range(n)]
+            elif kind < 0.8:
+                cs = [rng.choice('abcxyz_01~') if rng.random() < 0.7 else rng.choice('éß名😀²') for _ in range(n)]
+            else:
+                cs = [rng.choice('é名😀') for _ in range(rng.randint(14, 52))] + list(rng.choice(['~1', '~2', '_idx', '']))
+            add(''.join(cs), 'longname')
         # bytes
         for b in range(256):
             byts.setdefault(bytes([b]), 'exh-bytes')
@@ -511,8 +531,21 @@ def run(ctx: core.Ctx):
         rust_of = dict(zip(LT, rust))
         ctx.log('real tokenizer done')
 
+        # ------------------------------------------------ edgedb_name_to_pg_name (long names)
+        name_items = []   # (s, prefix_length, real output, md5/base64 hash)
+        for j, s in enumerate(S):
+            pls = (0,) if j % 5 else (0, 5, 27, 28, 35, 51)
+            hsh = base64.b64encode(hashlib.md5(s.encode(), usedforsecurity=False).digest()).decode().rstrip('=')
+            for pl in pls:
+                name_items.append((s, pl, R.call(R.pc.edgedb_name_to_pg_name, s, pl), hsh))
+
         # ------------------------------------------------ SQL texts for PgLex (oracle for the SQL forms)
         pg_lines = []     # (op, text, what, s, form index)
+        for (s, pl, r, _h) in name_items:
+            if pl == 0 and isinstance(r, str) and not r.startswith('!EXC'):
+                qr = R.call(R.pc.quote_ident, r)
+                if isinstance(qr, str) and not qr.startswith('!EXC'):
+                    pg_lines.append(('PI', qr, 'plain', r, 12, len(qr)))
         for s, outs in zip(S, real_q):
             small = len(s) <= 2 or strs[s] in ('witness', 'replay')
             for op, i in (('PS', 8), ('PE', 9), ('PI', 10), ('PI', 11)):
@@ -535,6 +568,7 @@ def run(ctx: core.Ctx):
         lines += ['B =' + b.hex() for b in Bs]
         lines += ['L ' + hx(t) for t in LT]
         lines += [f'{op} {hx(t)}' for (op, t, _w, _s, _i, _n) in pg_lines]
+        lines += [f'N {hx(s)} {hx(h)} {pl}' for (s, pl, _r, h) in name_items]
         mout = ctx.driver('C18', lines)
         if len(mout) != len(lines):
             raise core.Infra(f'driver returned {len(mout)} lines for {len(lines)}')
@@ -544,7 +578,8 @@ def run(ctx: core.Ctx):
         m_q = mout[p:p + len(S)]; p += len(S)
         m_b = mout[p:p + len(Bs)]; p += len(Bs)
         m_l = mout[p:p + len(LT)]; p += len(LT)
-        m_pg = mout[p:]
+        m_pg = mout[p:p + len(pg_lines)]; p += len(pg_lines)
+        m_n = mout[p:]
         ctx.log('driver done')
 
         # ---- leg 1: Python functions vs Model/Quote
@@ -568,6 +603,13 @@ def run(ctx: core.Ctx):
                     ctx.fail(f'corr:{BNAMES[i]}:{b.hex()}', f'Model/Quote and the real {BNAMES[i]} disagree',
                              {'input_hex': b.hex(), 'is_bytes': True, 'real': ro, 'model': mv}, no_input=True)
 
+        for (s, pl, r, _h), mo in zip(name_items, m_n):
+            mv = unhx(mo) if mo.startswith('=') else ('!EXC ValueError' if mo == '!ValueError' else mo)
+            if r != mv:
+                n_dis += 1
+                ctx.fail(f'corr:edgedb_name_to_pg_name:{s.encode().hex()}:{pl}',
+                         'Model/Quote and the real edgedb_name_to_pg_name disagree',
+                         {'input_hex': s.encode().hex(), 'prefix_length': pl, 'real': r, 'model': mv}, no_input=True)
         # ---- leg 2: Model/Lex vs the real tokenizer
         for t, r, mo in zip(LT, rust, m_l):
             rf = rust_first(t, r)
@@ -702,14 +744,14 @@ def run(ctx: core.Ctx):
         ctx.log('EdgeQL oracle done')
         # ---- oracle for the SQL forms: PgLex (trusted spec) on the real outputs
         for (op, text, what, s, i, olen), mo in zip(pg_lines, m_pg):
-            name = BNAMES[1] if op == 'PB' else QNAMES[i]
+            name = BNAMES[1] if op == 'PB' else (QNAMES[i] if i < 12 else 'pg.quote_ident(edgedb_name_to_pg_name)')
             isb = isinstance(s, bytes)
             sb = s if isb else s.encode()
             if not isb:
                 if '\x00' in s:
                     bump(f'oracle {name}: not expressible (NUL)')
                     continue
-                if op == 'PI' and (s == '' or len(sb) > 63):
+                if op == 'PI' and (s == '' or (len(sb) > 63 and i != 12)):
                     bump(f'oracle {name}: not expressible (empty or longer than 63 bytes)')
                     continue
             n_pg += 1
@@ -719,7 +761,7 @@ def run(ctx: core.Ctx):
                 if op == 'PI':
                     # ident, unreserved keyword, or (column=False only) a col_name keyword
                     val, consumed = f[2], int(f[3])
-                    good = f[1] in (('ident', 'kw1', 'kw4') if i == 10 else ('ident', 'kw1'))
+                    good = f[1] in (('ident', 'kw1', 'kw4') if i in (10, 12) else ('ident', 'kw1'))
                 else:
                     val, consumed = f[1], int(f[2])
                     good = True
@@ -727,7 +769,22 @@ def run(ctx: core.Ctx):
             if good:
                 bump(f'{name} ' + ('quoted' if text[:1] in '\'"E' else 'bare'))
                 continue
-            if name == 'pg.quote_e_literal' and '\\' in s:
+            if i == 12 and not isb and len(sb) > 63 and not s.isascii():
+                extra = {'pglex': mo, 'bytes': len(sb), 'characters': len(s)}
+                if f[0] == 'ok' and op == 'PI':
+                    other = clipped.setdefault(f[2], s)
+                    if other != s:
+                        extra['collides_with_hex'] = other.encode().hex()
+                        extra['both_read_as_hex'] = f[2][1:]
+                fam.add('pg-name-byte-length:edgedb_name_to_pg_name',
+                        'edgedb_name_to_pg_name compares the CHARACTER count with MAX_NAME_LENGTH, PostgreSQL truncates '
+                        'identifiers to 63 BYTES: a name of <= 51 characters that needs more than 63 bytes is returned '
+                        'unchanged (and the tail kept after the hash can push a hashed name over 63 bytes); PostgreSQL '
+                        'silently truncates it, distinct names can collide',
+                        s, text, extra)
+                if 'collides_with_hex' in extra and 'pair' not in fam.f['pg-name-byte-length:edgedb_name_to_pg_name']:
+                    fam.f['pg-name-byte-length:edgedb_name_to_pg_name']['pair'] = extra
+            elif name == 'pg.quote_e_literal' and '\\' in s:
                 fam.add('pg-eliteral-backslash:quote_e_literal',
                         'pg quote_e_literal does not escape backslashes: a backslash in the value is read by PostgreSQL as '
                         'the start of an escape (value changed; a trailing backslash swallows the closing quote)',
@@ -760,7 +817,8 @@ def run(ctx: core.Ctx):
 
     for key, r in sorted(fam.f.items()):
         w = r['witness']
-        ctx.fail(key, r['what'], {**w, 'failing_inputs_in_this_run': r['count']})
+        ctx.fail(key, r['what'], {**w, 'failing_inputs_in_this_run': r['count'],
+                                  **({'colliding_pair': r['pair']} if 'pair' in r else {})})
     for name, lst in sorted(viols.items()):
         lst.sort(key=lambda t: (t[0], t[1]))
         for (_n, sb, what, detail) in lst[:20]:
